@@ -313,6 +313,7 @@ def finish(ctx: Ctx, t0: float, evidence_dir: Optional[str] = None,
                 'title': rs.title, 'subjects': rs.instances, 'floor': rs.floor,
                 'obligations': rs.obligations, 'discharged': rs.discharged,
                 'unresolved': rs.unresolved, 'exhaustive': rs.exhaustive,
+                'advisory_obligations': advisory.ADVISORY_OBLIGATIONS.get(n), 'advisory_notes': rs.advisory_failed,
             }
             for n, rs in sorted(ctx.rules.items())
         },
